@@ -124,6 +124,13 @@ Theorem C01_session_state_preserved : forall i ran rows,
 Proof. exact SessionProof.command_state_preserved. Qed.
 Print Assumptions C01_session_state_preserved.
 
+(* and re-reading those names against the history gives back the same positions, when the written ids are distinct
+   (duplicate ids are a load error) and the positions are positions of the history *)
+Theorem C01_session_rows_reread : forall H, NoDup (map R.s_id H) -> forall l,
+  Forall (fun n => (N.to_nat n < length H)%nat) l -> pos_list H (names H l) = Some l.
+Proof. exact SessionProof.names_roundtrip. Qed.
+Print Assumptions C01_session_rows_reread.
+
 Definition ex_cmd : cmd_in :=
   mkCmd [R.mkS [97;49;98;50;99]%N [] [] []; R.mkS [98;50;99;51;100]%N [[97;49;98;50;99]%N] [] [[108;97;98;48]%N]; R.mkS [99;51;100;52;101]%N [[97;49;98;50;99]%N] [] []; R.mkS [100;52;101;53;102]%N [[98;50;99;51;100]%N; [99;51;100;52;101]%N] [] []; R.mkS [101;53;102;54;97]%N [] [[98;50;99;51;100]%N] []]
         [([98;50;99;51;100]%N, [100;52;101;53;102]%N)] [] [[99;51;100;52;101]%N] true [104;101;97;100;115]%N.
